@@ -238,6 +238,30 @@ func c17Families(thorough bool) []c17Member {
 		}
 		out = append(out, c17Member{"call-with-one-value-repeated", n, mk("a"), mk("1")})
 	}
+	// F2e: a parameterless function that only stores constants into globals (nothing for the
+	// matching to propagate from); the old version also stores into n globals the new one dropped
+	for _, n := range []int{300, 600, 1200} {
+		mk := func(extra bool) string {
+			var sb strings.Builder
+			sb.WriteString(hdr)
+			for i := 0; i < n; i++ {
+				fmt.Fprintf(&sb, "var g%d int\n", i)
+				if extra {
+					fmt.Fprintf(&sb, "var old%d int\n", i)
+				}
+			}
+			sb.WriteString("\nfunc F() {\n")
+			for i := 0; i < n; i++ {
+				fmt.Fprintf(&sb, "\tg%d = %d\n", i, i+20)
+				if extra {
+					fmt.Fprintf(&sb, "\told%d = %d\n", i, i+5000)
+				}
+			}
+			sb.WriteString("}\n")
+			return sb.String()
+		}
+		out = append(out, c17Member{"stores-to-globals-no-parameters", n, mk(true), mk(false)})
+	}
 	// F3g: many trivial inner loops whose bound is a 9-level doubling DAG over the outer counter (whose
 	// own start is a long expression): the bound's text appears in every inner loop's header line
 	for _, n := range []int{5, 50, 200} {
